@@ -12,6 +12,7 @@ symbol-table look-ups): it records facts, the clauses are evaluated by TLC (spec
      declared names introduced by declarations, dummy procedures, contained procedures, type definitions
      imported names brought in by USE ... ONLY (wild = a USE without ONLY is present)
      assoc    associate names (Associate nodes)
+     decls    the names declared by declaration statements of the scope, case folded, one entry per declaration
   occurrence    {name, kind, scope, at, role, member}
      kind     var (Scalar/Array) | deferred | proc | dtype | other
      scope    id of the object `symbol.scope` (0 = None, -1 = not a scope of this tree)
@@ -44,7 +45,7 @@ class Exporter:
         self.scope_ids[id(obj)] = sid
         self.objs.append(obj)
         rec = {'id': sid, 'kind': kind, 'name': name.lower(), 'parent': 0, 'encl': encl, 'tparent': 0,
-               'declared': [], 'imported': [], 'assoc': [], 'wild': False}
+               'declared': [], 'imported': [], 'assoc': [], 'wild': False, 'decls': []}
         self.scopes.append(rec)
         tab = getattr(obj, 'symbol_attrs', None)
         if tab is not None:
@@ -66,6 +67,7 @@ class Exporter:
         for rec in self.scopes:
             for k in ('declared', 'imported', 'assoc'):
                 rec[k] = sorted(set(rec[k]))
+            rec['decls'] = sorted(rec['decls'])
         # symbol scopes are resolved last: all scopes of the tree are known now
         occs = []
         for (name, kind, sobj_id, at, role, member) in self.occ:
@@ -162,6 +164,7 @@ class Exporter:
         if name in ('VariableDeclaration', 'ProcedureDeclaration'):
             for s in o.symbols:
                 srec['declared'].append(str(s.name).lower())
+                srec['decls'].append(str(s.name).lower())       # one entry per declaration (case folded, with multiplicity)
                 self.any(s, at, 'decl')
                 t = getattr(s, 'type', None)
                 for extra in (getattr(t, 'kind', None), getattr(t, 'initial', None)):
@@ -285,21 +288,40 @@ class WFGen(F.Gen):
     def __init__(self, rng, features=FEATURES):
         super().__init__(rng, features)
 
-    def program(self, nstmts=5, depth=2):
+    def program(self, nstmts=5, depth=2, casemix=None):
+        """casemix = seed: the case-mix stratum.  Every occurrence of an identifier is spelled lower / UPPER /
+        Capitalised at random (lib_fm.casemixing), and the callee locals that clash with caller variables (below)
+        clash up to letter case only: caller `w`, `j`, `l` - callee `W`, `J`, `L` (Fortran names are case-insensitive)."""
         rng = self.rng
         prog = super().program(nstmts, depth)
         kernel = prog['units'][0]
         body = kernel['body']
-        # internal procedure: dummy d (inout), local q, host variables t1 / ia / m
-        ip = unit('ip1', ['d'], [decl('d', 'int', 'inout'), decl('q', 'int')],
+        cw, cj, cl = ('W', 'J', 'L') if casemix is not None else ('w', 'j', 'l')
+        # internal procedure: dummy d (inout), local q, host variables t1 / ia / m; its local ARRAY w clashes with the
+        # caller's scalar w (inlining has to rename it)
+        ip = unit('ip1', ['d'], [decl('d', 'int', 'inout'), decl('q', 'int'), decl(cw, 'int', 'local', [(1, 2)])],
                   [assign(V('q'), op('sum', V('d'), V('m'))),
-                   assign(el('ia', N(1)), call('mod', op('sum', el('ia', N(1)), V('q')), N(7))),
+                   assign(el(cw, N(1)), op('sum', V('q'), N(1))),
+                   assign(el('ia', N(1)), call('mod', op('sum', el('ia', N(1)), V('q'), el(cw, N(1))), N(7))),
                    assign(V('d'), call('mod', op('sum', V('q'), V('t1')), N(9)))], host='kernel')
-        with_ip = rng.random() < 0.6      # (constant propagation raises on routines that have internal procedures)
+        # module subroutine inlined through a marked call: its local array j clashes with the caller's loop variable j
+        h3 = unit('h3', ['p'], [decl('p', 'int', 'inout'), decl(cj, 'int', 'local', [(1, 2)])],
+                  [assign(el(cj, N(1)), op('prod', V('p'), N(2))), assign(V('p'), call('mod', op('sum', el(cj, N(1)), N(1)), N(7)))])
+        prog['units'].append(h3)
+        # module function: a local array l that clashes with the caller's scalar l
+        f1 = next((u for u in prog['units'] if u['name'] == 'f1'), None)
+        if f1 is not None:
+            f1['decls'].append(decl(cl, 'int', 'local', [(1, 2)]))
+            f1['body'][0:0] = [assign(el(cl, N(2)), op('sum', V('u'), V('v')))]
+            f1['body'].append(assign(V('res'), op('sum', V('res'), call('mod', el(cl, N(2)), N(2)))))
+        with_ip = casemix is not None or rng.random() < 0.6   # (constant propagation raises on routines with internal procedures)
         if with_ip:
             prog['units'].append(ip)
-        extra = ([[{'s': 'call', 'name': 'ip1', 'args': [V('t2')]}]] if with_ip else []) + [
-                 [raw('!$loki inline'), {'s': 'call', 'name': 'h2', 'args': [V('t1'), op('sum', V('n'), N(1))]}],
+        must = ([[{'s': 'call', 'name': 'ip1', 'args': [V('t2')]}]] if with_ip else []) + [
+                [raw('!$loki inline'), {'s': 'call', 'name': 'h3', 'args': [V('t1')]}]]
+        if f1 is not None:
+            must.append([assign(V('t2'), call('mod', op('sum', call('f1', V('n'), V('m')), V('t2')), N(13)))])
+        extra = [[raw('!$loki inline'), {'s': 'call', 'name': 'h2', 'args': [V('t1'), op('sum', V('n'), N(1))]}],
                  [{'s': 'call', 'name': 'h1', 'args': [el('ia', N(0)), N(2), V('t2')]}],          # sequence association
                  [raw('!$loki outline name(outl1) in(n,m) inout(k)' if rng.random() < 0.5 else '!$loki outline'),
                   assign(V('t2'), op('sum', V('n'), V('m'))), assign(V('k'), call('mod', op('sum', V('k'), V('t2')), N(17))),
@@ -321,11 +343,15 @@ class WFGen(F.Gen):
                  [raw('!$loki region-hoist target'), assign(V('t1'), op('sum', V('t1'), N(2))),
                   raw('!$loki region-hoist'), assign(V('t2'), op('sum', V('m'), N(4))), raw('!$loki end region-hoist')]]
         rng.shuffle(extra)
-        for block in extra[:rng.randint(5, len(extra))]:
-            pos = rng.randint(5, len(body))
-            body[pos:pos] = block
+        items = [[st] for st in body[5:]]               # blocks are placed between statements, never inside another block
+        for block in must + extra[:rng.randint(5, len(extra))]:
+            items.insert(rng.randint(0, len(items)), block)
+        body[5:] = [st for it in items for st in it]
         # an unused local array and an unused scalar (remove_unused_vars)
         kernel['decls'] += [decl('zz', 'int', 'local', [(1, 3)]), decl('uu', 'int')]
+        if casemix is not None:
+            prog['casemix'] = int(casemix)
+            prog['casemix_keep'] = ['w', 'W', 'j', 'J', 'l', 'L']     # these clash up to case in every rendering
         return prog
 
 
